@@ -54,7 +54,7 @@ def cases(tier: str, base_seed: int):  # noqa: ANN201
     for i in range(48 if tier == "quick" else 400):
         rng = random.Random(f"c11tm/{base_seed}/{i}")
         yield {"scenario": "tm", "seed": base_seed + 500 + i, "knobs": {"timer_jitter": rng.choice([0.0, 0.001])},
-               "ops": [_tm_op(rng) for _ in range(rng.choice([4, 8, 20]))]}
+               "ops": [_tm_op(rng) for _ in range(rng.choice([4, 8, 20]))], "tail": rng.choice([5.0, 0.05, 0.25, 0.6])}
     # the unload chases the first data packet of a circuit that ends at the victim (remove_tunnel_delay 0)
     for gap in (0.0, 1e-6, 1e-4, 1e-3):
         for iters in (0, 1, 2, 3, 5):
@@ -109,6 +109,7 @@ def run_tm(c: Case, case: dict) -> dict:  # noqa: C901
         running: dict = {"a": set(), "b": set()}
         cancel_requested: set = set()
         current: dict = {}      # name -> generation that holds the name
+        tm_state = {"shutdown_done": False}
         replaced: dict = {}     # (name, new generation) -> generation it replaced
 
         def make(name: str, work: float, cleanup: float = 0.0):  # noqa: ANN202
@@ -118,7 +119,7 @@ def run_tm(c: Case, case: dict) -> dict:  # noqa: C901
             async def body() -> None:
                 seq[0] += 1
                 log.append((seq[0], name, g, "first"))
-                others = [x for x in running[name] if x not in cancel_requested]
+                others = [x for x in running[name] if (name, x) not in cancel_requested]
                 if others:
                     c.violate("duplicate_name", "two_tasks_active_under_one_name",
                               f"task '{name}' generation {g} started while generation {others} of the same name is still running "
@@ -127,6 +128,13 @@ def run_tm(c: Case, case: dict) -> dict:  # noqa: C901
                 try:
                     if work:
                         await asyncio.sleep(work)
+                        # resumed normally (a cancelled task would have got CancelledError instead)
+                        if tm_state["shutdown_done"]:
+                            c.violate("no_activity_after_shutdown", "task_step_after_shutdown_completed",
+                                      f"task '{name}' generation {g} resumed its work after shutdown_task_manager() had returned")
+                        elif (name, g) in cancel_requested:
+                            c.violate("no_activity_after_shutdown", "cancelled_task_ran_on",
+                                      f"task '{name}' generation {g} resumed its work although it had been cancelled / replaced")
                 finally:
                     if cleanup:
                         # a task that needs time to wind down after it was cancelled (asynchronous clean-up)
@@ -166,18 +174,20 @@ def run_tm(c: Case, case: dict) -> dict:  # noqa: C901
                 body, g = make(name, op["work"], op.get("cleanup", 0.0))
                 if active and name in current:
                     replaced[(name, g)] = current[name]
-                cancel_requested.update(running[name])
+                cancel_requested.update((name, x) for x in running[name])
                 fut = tm.replace_task(name, body)
                 live[name] = fut
                 current[name] = g
                 fut.add_done_callback(lambda f: f.exception() if not f.cancelled() else None)
             elif kind == "cancel":
                 if tm.is_pending_task_active(name):
-                    cancel_requested.update(running[name])
+                    cancel_requested.update((name, x) for x in running[name])
                 tm.cancel_pending_task(name)
             await asyncio.sleep(op["d"] if kind == "advance" else 0.0)
-        await asyncio.sleep(5.0)
+        await asyncio.sleep(case.get("tail", 5.0))
         await tm.shutdown_task_manager()
+        tm_state["shutdown_done"] = True
+        await asyncio.sleep(3.0)
         # replace ordering: for each name, generation g+1's first step must come after generation g's last step
         per: dict = {}
         for ev, name, g, what in log:
